@@ -155,6 +155,9 @@ def isar_elements(deps, kinds):
                 elif kinds[d] == "enum" and (n + d) % 2:
                     # an array sized by the enum's first enumerator (dependency through the size expression only)
                     members.append('<member name="arr%d" type="u16"><dimension size="%s_A"/></member>' % (d, nm(d)))
+                elif (n + d) % 3 == 0:
+                    # used only through an optional member
+                    members.append('<member name="m%d" type="%s" optional="true"/>' % (d, nm(d)))
                 else:
                     members.append('<member name="m%d" type="%s"/>' % (d, nm(d)))
             out[n] = '<struct name="%s">%s</struct>' % (nm(n), "".join(members))
@@ -194,6 +197,8 @@ def schema_env_for_graph(deps, kinds):
                     ms.append(S.Mem("fixed", S.Int(2), consts[d]))
                 elif kinds[d] == "enum" and (n + d) % 2:
                     ms.append(S.Mem("fixed", S.Int(2), consts.get(d, d)))
+                elif (n + d) % 3 == 0:
+                    ms.append(S.Mem("opt", S.Ref(idx[d])))
                 else:
                     ms.append(S.Mem("plain", S.Ref(idx[d])))
             defs.append(S.StructDef(ms))
